@@ -31,7 +31,7 @@ from core import cz, cq, clist, ctuple, copt
 
 PAIRS = [(480, 500000), (96, 600000), (1000, 333333), (1, 10 ** 6), (384, 250000), (960, 1000000)]
 THRS = [0, 1, 63, 64, 126, 127]
-EXPECT_MIN = 42
+EXPECT_MIN = 56
 F32_TOL = F(1, 2 ** 20)  # relative tolerance for the float32 columns of note_array
 CPU_BUDGET = 60.0  # seconds of CPU time (not wall-clock) one implementation call may use
 
@@ -147,19 +147,77 @@ def gen_case(rng, tie_stream=False):
         notes.sort(key=lambda x: -x["on"])
     thr = rng.choice(THRS) if rng.random() < 0.6 else rng.randint(0, 127)
     nc = rng.choice([0, 0, 1, 2, 3, 4, 6, 8, 12, 16, 20])
+    scale = rng.choice([16, 16, 16, 16, 1, 4, 1024])
+    # 22%: one or two of the three time columns (onsets / releases / control times) hold whole seconds only
+    # while the others do not (an array built from such a column alone has an integer dtype)
+    whole = []
+    if rng.random() < 0.22:
+        scale = rng.choice([16, 16, 4])
+        whole = rng.choice([["off"], ["off"], ["off"], ["on"], ["ct"], ["on", "off"], ["off", "ct"], ["on", "ct"]])
+        snap_notes(notes, whole, scale)
+        if nc == 0 or rng.random() < 0.5:
+            nc = rng.choice([1, 2, 3, 4, 6, 8])
     ctrls = gen_ctrls(rng, notes, thr, nc, tie_stream)
+    if whole:
+        if "ct" in whole:
+            snap_ctrls(rng, ctrls, scale, tie_stream)
+        elif ctrls and rng.random() < 0.7:
+            unsnap_ctrls(rng, ctrls, scale, tie_stream)
     thrs = [rng.choice(THRS) if rng.random() < 0.5 else rng.randint(0, 127) for _ in range(rng.choice([1, 2, 3, 4]))]
     if rng.random() < 0.3:
         thrs.append(thrs[-1])  # assigning the same value again
     if rng.random() < 0.2:
         thrs.append(thr)
     ppq, mpq = rng.choice(PAIRS) if rng.random() < 0.8 else (rng.randint(1, 2000), rng.randint(1000, 2 * 10 ** 6))
-    scale = rng.choice([16, 16, 16, 16, 1, 4, 1024])
     if scale == 1:
         mpq = max(mpq, 20000)  # whole-second grid: keep the int32 tick columns of note_array below 2^31
     case = dict(notes=notes, ctrls=ctrls, thr=thr, thrs=thrs, ppq=ppq, mpq=mpq, scale=scale)
+    if whole:
+        case["whole"] = whole
     gen_shape(rng, case)
     return case
+
+
+INT_KINDS = ["int", "int", "npint", "npint", "npint32", "float"]
+FLOAT_KINDS = ["float", "float", "np64", "np32", "int", "npint"]
+
+
+def snap_notes(notes, whole, sc):
+    """onsets moved down / releases moved up to whole seconds (0 <= onset <= release is kept)"""
+    for x in notes:
+        if "on" in whole:
+            x["on"] = x["on"] // sc * sc
+        if "off" in whole:
+            x["off"] = -(-x["off"] // sc) * sc
+        elif x["off"] < x["on"]:
+            x["off"] = x["on"]
+
+
+def snap_ctrls(rng, ctrls, sc, tie_stream):
+    """control times moved to whole seconds; pedal events stay at pairwise distinct times unless tie_stream"""
+    used = set()
+    for c in ctrls:
+        t = (c["t"] + sc // 2) // sc * sc
+        if c["number"] == 64 and not tie_stream:
+            while t in used:
+                t += sc
+            used.add(t)
+        c["t"] = t
+
+
+def unsnap_ctrls(rng, ctrls, sc, tie_stream):
+    """pedal events that sit on a whole second are moved off it (the releases / onsets are whole: the next
+    pedal lift after a release must not be)"""
+    used = {c["t"] for c in ctrls if c["number"] == 64}
+    for c in ctrls:
+        if c["t"] % sc == 0 and rng.random() < 0.8:
+            t = c["t"] + rng.choice([1, sc // 2, sc - 1, -1, sc // 4 or 1])
+            if c["number"] == 64 and not tie_stream:
+                if t in used:
+                    continue
+                used.discard(c["t"])
+                used.add(t)
+            c["t"] = t
 
 
 OPTIONAL_NOTE_KEYS = ["velocity", "channel", "track", "id"]
@@ -171,10 +229,17 @@ def gen_shape(rng, case, carried=0.15):
     stored ticks (note_on_tick / note_off_tick as load_performance_midi leaves them), notes that
     already carry a sounding end, controls=None for an empty control list."""
     r = rng.random()
-    if r < 0.55:
+    whole = case.get("whole")
+    if r < 0.55 and not (whole and r < 0.45):
         return
-    shape = dict(num=rng.choice(["float", "float", "np32", "np64", "int"]), obj=rng.random() < 0.25,
+    shape = dict(num=rng.choice(["float", "float", "np32", "np64", "int", "npint"]), obj=rng.random() < 0.25,
                  none_ctrls=rng.random() < 0.5)
+    if whole or rng.random() < 0.35:
+        # every time column in a number type of its own (Python / numpy, int / float; an int kind is used
+        # for the values that are whole, the others stay float)
+        shape["kinds"] = {col: rng.choice(INT_KINDS if whole and col in whole else FLOAT_KINDS) for col in ("on", "off", "ct")}
+    if rng.random() < 0.2:
+        shape["thr_np"] = rng.choice(["int64", "int32"])
     case["shape"] = shape
     om_p = rng.choice([0.0, 0.15, 0.5])
     tk = rng.random() < 0.3
@@ -319,7 +384,24 @@ def numk(v, kind):
         return np.float64(f)
     if kind == "int" and f == int(f):
         return int(f)
+    if kind == "npint":
+        return np.int64(int(f)) if f == int(f) else np.float64(f)
+    if kind == "npint32":
+        return np.int32(int(f)) if f == int(f) else np.float64(f)
     return f
+
+
+def kind_of(shape, col):
+    """the number type of the time column col ("on" / "off" / "ct") under the shape"""
+    shape = shape or {}
+    return (shape.get("kinds") or {}).get(col, shape.get("num", "float"))
+
+
+def thr_value(thr, shape):
+    import numpy as np
+
+    k = (shape or {}).get("thr_np")
+    return thr if not k else (np.int64(thr) if k == "int64" else np.int32(thr))
 
 
 def lib_tick(t, ppq, mpq):
@@ -330,8 +412,8 @@ def lib_tick(t, ppq, mpq):
 
 def note_dict(x, k, sc, shape=None, ppq=480, mpq=500000):
     """The dict handed to PerformedPart / PerformedNote for the abstract note x."""
-    kind = (shape or {}).get("num", "float")
-    d = dict(id="n%d" % k, midi_pitch=x["midi_pitch"], note_on=numk(F(x["on"], sc), kind), note_off=numk(F(x["off"], sc), kind),
+    kind = kind_of(shape, "off")
+    d = dict(id="n%d" % k, midi_pitch=x["midi_pitch"], note_on=numk(F(x["on"], sc), kind_of(shape, "on")), note_off=numk(F(x["off"], sc), kind),
              velocity=x["velocity"], channel=x["channel"], track=x["track"])
     if x.get("tk"):
         d["note_on_tick"] = lib_tick(F(x["on"], sc), ppq, mpq)
@@ -346,7 +428,7 @@ def note_dict(x, k, sc, shape=None, ppq=480, mpq=500000):
 def ctrl_dict(c, sc, shape=None):
     import numpy as np
 
-    kind = (shape or {}).get("num", "float")
+    kind = kind_of(shape, "ct")
     d = dict(number=c["number"], time=numk(F(c["t"], sc), kind), value=np.int64(c["value"]) if c.get("npval") else c["value"],
              track=c["track"], channel=c["channel"])
     for key in c.get("omit", ()):
@@ -363,7 +445,7 @@ def make_part(notes, ctrls, thr, ppq, mpq, sc, shape=None):
     cd = [ctrl_dict(c, sc, shape) for c in ctrls]
     if shape and shape.get("none_ctrls") and not cd:
         cd = None
-    return P.PerformedPart(nd, controls=cd, sustain_pedal_threshold=thr, ppq=ppq, mpq=mpq)
+    return P.PerformedPart(nd, controls=cd, sustain_pedal_threshold=thr_value(thr, shape), ppq=ppq, mpq=mpq)
 
 
 def build_part(case, thr=None):
@@ -385,6 +467,7 @@ def run_impl(case):
     out["obs0"] = so_column(pp)
     out["vel"] = [int(n["velocity"]) for n in pp.notes]
     try:
+        scribble(pp.note_array())
         na = pp.note_array()
         out["na"] = [dict(onset_sec=F(float(r["onset_sec"])), duration_sec=F(float(r["duration_sec"])),
                           onset_tick=int(r["onset_tick"]), duration_tick=int(r["duration_tick"]),
@@ -393,6 +476,22 @@ def run_impl(case):
         rb = P.PerformedPart.from_note_array(na)
         out["rebuilt"] = [dict(pitch=int(n["midi_pitch"]), velocity=int(n["velocity"]), on=F(float(n["note_on"])),
                                so=F(float(n["sound_off"]))) for n in rb.notes]
+        # the same array in the other forms from_note_array documents: optional fields (id / track / channel) absent,
+        # mandatory columns only, other column order, float64 / int64 columns
+        variant = (len(case["notes"]) + case["thr"] + len(case["ctrls"])) % 5
+        out["variant"] = variant
+        if variant:
+            import numpy as np
+            names = [["onset_sec", "duration_sec", "pitch", "velocity"], ["velocity", "pitch", "duration_sec", "onset_sec", "channel"],
+                     ["pitch", "onset_sec", "duration_sec", "velocity", "track", "id"], list(na.dtype.names)[::-1]][variant - 1]
+            kinds = dict(onset_sec="f8" if variant % 2 else "f4", duration_sec="f8" if variant % 2 else "f4", pitch="i8" if variant > 2 else "i4",
+                         velocity="i8" if variant > 2 else "i4", track="i4", channel="i8", id="U256", onset_tick="i4", duration_tick="i4")
+            na2 = np.zeros(len(na), dtype=[(nm, kinds[nm]) for nm in names])
+            for nm in names:
+                na2[nm] = na[nm]
+            rb2 = P.PerformedPart.from_note_array(na2)
+            out["rebuilt2"] = [dict(pitch=int(n["midi_pitch"]), velocity=int(n["velocity"]), on=F(float(n["note_on"])),
+                                    so=F(float(n["sound_off"]))) for n in rb2.notes]
     except Exception as e:
         out["err"] = "note_array/from_note_array: %s: %s" % (type(e).__name__, e)
         return out
@@ -403,6 +502,18 @@ def run_impl(case):
             out["err"] = "setter(%d): %s: %s" % (t, type(e).__name__, e)
             return out
         out["hist"].append(so_column(pp))
+    # the function behind the setter called directly on plain dicts (its documented argument type), after the
+    # part has been through all the assignments: same notes, controls and first threshold
+    out["direct"] = None
+    try:
+        import partitura.performance as P
+        shape = case.get("shape")
+        ds = [note_dict(x, k, case["scale"], shape, case["ppq"], case["mpq"]) for k, x in enumerate(case["notes"])]
+        cd = [ctrl_dict(c, case["scale"], shape) for c in case["ctrls"]]
+        P.adjust_offsets_w_sustain(ds, cd, case["thr"])
+        out["direct"] = [F(float(d["sound_off"])) for d in ds]
+    except Exception as e:
+        out["direct_err"] = "%s: %s" % (type(e).__name__, e)  # counted, not judged
     return out
 
 
@@ -439,6 +550,14 @@ def oracle(case, res, tie):
                                % (thr, i, ns[i]["midi_pitch"], ns[i]["on"] / sc, float(off), float(so), float(exp)))
             if thr >= 127 and so != off:
                 bad.append("threshold %d note %d: sound_off %s differs from the release %s" % (thr, i, float(so), float(off)))
+    if res.get("rebuilt2") is not None and res["rebuilt2"] != res["rebuilt"]:
+        bad.append("from_note_array of the note array with %s gives (pitch, velocity, onset, sounding end) %s, of the array as note_array() returned it %s"
+                   % (["", "the mandatory fields only", "no id / track, other column order", "no channel, 64-bit columns", "the columns reversed, 64-bit"][res["variant"]],
+                      [(r["pitch"], r["velocity"], float(r["on"]), float(r["so"])) for r in res["rebuilt2"]][:4],
+                      [(r["pitch"], r["velocity"], float(r["on"]), float(r["so"])) for r in res["rebuilt"]][:4]))
+    if res.get("direct") is not None and res["direct"] != res["obs0"]:
+        bad.append("adjust_offsets_w_sustain(note dicts, controls, %d) gives the sounding ends %s, the part built from the same notes and controls has %s"
+                   % (case["thr"], [float(x) for x in res["direct"]], [float(x) for x in res["obs0"]]))
     # raising the threshold never lengthens a note; equal thresholds give equal columns
     for a in range(len(cols)):
         for b in range(len(cols)):
@@ -608,7 +727,10 @@ def gen_pnote_case(rng):
         else:
             v = rng.randint(0, 15)
         edits.append([key, v])
-    return dict(d=d, edits=edits)
+    out = dict(d=d, edits=edits)
+    if rng.random() < 0.4:
+        out["num"] = rng.choice(["int", "npint", "npint32", "np64", "np32"])  # the number type of the times (int kinds: where whole)
+    return out
 
 
 def pn_fields(n):
@@ -623,9 +745,10 @@ def run_pnote(case):
     import partitura.performance as P
 
     d = dict(case["d"])
+    kind = case.get("num", "float")
     for key in TIME_KEYS:
         if key in d:
-            d[key] = d[key] / PN_SC
+            d[key] = numk(F(d[key], PN_SC), kind)
     errs = []
     try:
         n = P.PerformedNote(d)
@@ -635,7 +758,7 @@ def run_pnote(case):
     outs = []
     for key, v in case["edits"]:
         try:
-            n[key] = v / PN_SC if key in TIME_KEYS else v
+            n[key] = numk(F(v, PN_SC), kind) if key in TIME_KEYS else v
             outs.append(pn_fields(n))
             errs.append(None)
         except Exception as e:
@@ -772,24 +895,72 @@ def gen_step(rng, st, tie_stream):
 
     has_ped = any(c["number"] == 64 for c in st["ctrls"])
     ped_times = {c["t"] for c in st["ctrls"] if c["number"] == 64}
+    step = gen_step_raw(rng, st, tie_stream, pick_thr, has_ped, ped_times)
+    # the number types of what the step hands over (times: Python / numpy, int where whole; threshold: int / numpy int)
+    if step["op"] in ("ctrls", "note", "rebuild") and rng.random() < 0.4:
+        step["num"] = rng.choice(["int", "npint", "npint32", "np64", "np32", "int", "npint"])
+    if "thr" in step and rng.random() < 0.15:
+        step["thr_np"] = rng.choice(["int64", "int32"])
+    return step
+
+
+def gen_step_raw(rng, st, tie_stream, pick_thr, has_ped, ped_times):
+    cur = st["thr"]
+    sc = st.get("scale", 16)
+    whole = st.get("whole") or []
     r = rng.random()
     if r < 0.06:
         # the part's ppq / mpq attributes changed: note_array() must report ticks under the current ones
         ppq, mpq = rng.choice(PAIRS) if rng.random() < 0.7 else (rng.randint(1, 2000), rng.randint(20000, 2 * 10 ** 6))
         return dict(op="ppq", ppq=ppq, mpq=max(mpq, 20000))
     if r < 0.15:
-        return dict(op="thr", thr=pick_thr())
+        # the setter, or the function behind it called directly on the part's notes and controls
+        return dict(op="thr", thr=pick_thr(), **({"direct": True} if rng.random() < 0.3 else {}))
     if r < 0.52:
         hows = ["replace", "replace", "extend", "extend", "delete", "clear"]
         hows += ["remove_pedal", "remove_pedal", "remove_pedal_inplace", "remove_pedal_inplace"] if has_ped else ["extend", "extend", "replace"]
+        if st["ctrls"]:
+            hows += ["edit", "edit", "edit", "edit"]
         how = rng.choice(hows)
         step = dict(op="ctrls", how=how, thr=pick_thr())
+        if how == "edit":
+            # one control event changed IN PLACE (same list, same dict, same length): value, time or controller number
+            k = rng.randrange(len(st["ctrls"]))
+            peds = [j for j, c in enumerate(st["ctrls"]) if c["number"] == 64]
+            if peds and rng.random() < 0.8:
+                k = rng.choice(peds)
+            c = st["ctrls"][k]
+            step["idx"] = k
+            what = rng.choice(["value", "value", "value", "time", "time", "number"])
+            if what == "value":
+                step["value"] = rng.choice([0, 127, cur, min(127, cur + 1), max(0, cur - 1), 127 - c["value"], rng.randint(0, 127)])
+            elif what == "time":
+                marks = sorted({x["off"] for x in st["notes"]} | {x["on"] for x in st["notes"]})
+                t = rng.choice([c["t"] + rng.choice([-1, 1, 4, -4, 16, -16]), rng.choice(marks), rng.choice(marks) + rng.choice([-1, 1])])
+                if "ct" in whole:
+                    t = t // sc * sc
+                if (c["number"] == 64 and not tie_stream) and t in ped_times - {c["t"]}:
+                    t = c["t"]
+                step["t"] = t
+            else:
+                step["number"] = 64 if c["number"] != 64 else rng.choice([66, 67, 1])
+                if step["number"] == 64 and not tie_stream and c["t"] in ped_times:
+                    step["number"] = c["number"]
         if how == "replace":
             step["ctrls"] = gen_ctrls(rng, st["notes"], cur, rng.choice([0, 1, 2, 3, 4, 6, 8]), tie_stream, ped_prob=rng.choice([0.0, 0.7, 0.9]))
         elif how == "extend":
             step["ctrls"] = gen_ctrls(rng, st["notes"], cur, rng.choice([1, 1, 2, 3, 5]), tie_stream, ped_prob=rng.choice([0.5, 0.9, 1.0]), used=ped_times)
         elif how == "delete":
             step["idx"] = rng.randint(0, 40)
+        if "ct" in whole and "ctrls" in step:
+            snap_ctrls(rng, step["ctrls"], sc, tie_stream)
+            if how == "extend" and not tie_stream:
+                used = set(ped_times)
+                for c in step["ctrls"]:
+                    if c["number"] == 64:
+                        while c["t"] in used:
+                            c["t"] += sc
+                        used.add(c["t"])
         return step
     if r < 0.72:
         how = rng.choice(["off", "off", "off", "on", "add", "del"])
@@ -797,8 +968,14 @@ def gen_step(rng, st, tie_stream):
         if how in ("off", "on"):
             step["idx"] = rng.randint(0, 40)
             step["d"] = rng.choice([0, 0, 1, 4, 16, rng.randint(0, 64), rng.randint(0, 400)])
+            x = st["notes"][step["idx"] % len(st["notes"])]
+            if how == "off" and "off" in whole:
+                step["d"] = -(-(x["on"] + step["d"]) // sc) * sc - x["on"]  # the new release is a whole second again
+            if how == "on" and "on" in whole:
+                step["d"] = x["off"] - max(0, x["off"] - step["d"]) // sc * sc
         elif how == "add":
             step["note"] = gen_note(rng, st["notes"])
+            snap_notes([step["note"]], whole, sc)
         else:
             step["idx"] = rng.randint(0, 40)
         return step
@@ -819,13 +996,15 @@ def initial_state(case):
     if case.get("midi") and [m for _, m in case["midi"]["tempos"]] != [500000]:
         for x in notes:
             x["tk_stale"] = True  # ticks of a file with another tempo map: seconds and ticks do not agree under the part's single mpq
-    return dict(notes=notes, ctrls=[dict(c) for c in case["ctrls"]], thr=case["thr"], ppq=case["ppq"], mpq=case["mpq"])
+    return dict(notes=notes, ctrls=[dict(c) for c in case["ctrls"]], thr=case["thr"], ppq=case["ppq"], mpq=case["mpq"],
+                scale=case["scale"], whole=case.get("whole"))
 
 
 def abs_apply(st, step, sc, observed=None):
     """The harness's bookkeeping: the notes / controls / threshold the part must have after the
     step.  None: a note-array round trip over a state with sort-order ties (sounding ends open)."""
-    st = dict(notes=[dict(x) for x in st["notes"]], ctrls=[dict(c) for c in st["ctrls"]], thr=st["thr"], ppq=st["ppq"], mpq=st["mpq"])
+    st = dict(notes=[dict(x) for x in st["notes"]], ctrls=[dict(c) for c in st["ctrls"]], thr=st["thr"], ppq=st["ppq"], mpq=st["mpq"],
+              scale=st.get("scale", sc), whole=st.get("whole"))
     op = step["op"]
     if op == "thr":
         st["thr"] = step["thr"]
@@ -847,6 +1026,15 @@ def abs_apply(st, step, sc, observed=None):
         elif how == "delete":
             if st["ctrls"]:
                 del st["ctrls"][step["idx"] % len(st["ctrls"])]
+        elif how == "edit":
+            if st["ctrls"]:
+                c = st["ctrls"][step["idx"] % len(st["ctrls"])]
+                if "value" in step:
+                    c["value"] = step["value"]
+                if "t" in step:
+                    c["t"] = step["t"]
+                if "number" in step:
+                    c["number"] = step["number"]
         st["thr"] = step["thr"]
     elif op == "note":
         how = step["how"]
@@ -907,8 +1095,15 @@ def impl_apply(pp, step, sc, serial):
     import partitura.performance as P
 
     op = step["op"]
+    kshape = dict(num=step["num"]) if step.get("num") else None
+    kind = step.get("num", "float")
+    thr = thr_value(step["thr"], step) if "thr" in step else None
     if op == "thr":
-        pp.sustain_pedal_threshold = step["thr"]
+        if step.get("direct"):
+            # the function behind the setter, on the part's own notes and controls
+            P.adjust_offsets_w_sustain(pp.notes, pp.controls, thr)
+        else:
+            pp.sustain_pedal_threshold = thr
         return pp
     if op == "ppq":
         pp.ppq, pp.mpq = step["ppq"], step["mpq"]
@@ -916,9 +1111,18 @@ def impl_apply(pp, step, sc, serial):
     if op == "ctrls":
         how = step["how"]
         if how == "replace":
-            pp.controls = [ctrl_dict(c, sc) for c in step["ctrls"]]
+            pp.controls = [ctrl_dict(c, sc, kshape) for c in step["ctrls"]]
         elif how == "extend":
-            pp.controls.extend(ctrl_dict(c, sc) for c in step["ctrls"])
+            pp.controls.extend(ctrl_dict(c, sc, kshape) for c in step["ctrls"])
+        elif how == "edit":
+            if pp.controls:
+                c = pp.controls[step["idx"] % len(pp.controls)]
+                if "value" in step:
+                    c["value"] = step["value"]
+                if "t" in step:
+                    c["time"] = numk(F(step["t"], sc), kind)
+                if "number" in step:
+                    c["number"] = step["number"]
         elif how == "remove_pedal":
             pp.controls = [c for c in pp.controls if c["number"] != 64]
         elif how == "remove_pedal_inplace":
@@ -928,25 +1132,25 @@ def impl_apply(pp, step, sc, serial):
         elif how == "delete":
             if pp.controls:
                 del pp.controls[step["idx"] % len(pp.controls)]
-        pp.sustain_pedal_threshold = step["thr"]
+        pp.sustain_pedal_threshold = thr
         return pp
     if op == "note":
         how = step["how"]
         n = len(pp.notes)
         if how == "off":
             note = pp.notes[step["idx"] % n]
-            note["note_off"] = float(note["note_on"]) + step["d"] / sc
+            note["note_off"] = numk(F(float(note["note_on"])) + F(step["d"], sc), kind)
         elif how == "on":
             note = pp.notes[step["idx"] % n]
-            note["note_on"] = max(0.0, float(note["note_off"]) - step["d"] / sc)
+            note["note_on"] = numk(max(F(0), F(float(note["note_off"])) - F(step["d"], sc)), kind)
         elif how == "add":
-            d = note_dict(step["note"], 0, sc)
+            d = note_dict(step["note"], 0, sc, kshape)
             d["id"] = "a%d" % serial
             pp.notes.append(P.PerformedNote(d))
         elif how == "del":
             if n > 1:
                 del pp.notes[step["idx"] % n]
-        pp.sustain_pedal_threshold = step["thr"]
+        pp.sustain_pedal_threshold = thr
         return pp
     if op == "rebuild":
         if step["ctrls"] == "same":
@@ -954,20 +1158,32 @@ def impl_apply(pp, step, sc, serial):
         elif step["ctrls"] == "nopedal":
             ctrls = [c for c in pp.controls if c["number"] != 64]
         else:
-            ctrls = [ctrl_dict(c, sc) for c in step["ctrls"]]
+            ctrls = [ctrl_dict(c, sc, kshape) for c in step["ctrls"]]
         if step["how"] == "dicts":
             notes = [dict(n.pnote_dict) for n in pp.notes]  # every dict carries the sound_off of the old part
         elif step["how"] == "copy":
             notes = [n.copy() for n in pp.notes]
         else:
             notes = list(pp.notes)
-        return P.PerformedPart(notes, controls=ctrls, sustain_pedal_threshold=step["thr"], ppq=pp.ppq, mpq=pp.mpq)
+        return P.PerformedPart(notes, controls=ctrls, sustain_pedal_threshold=thr, ppq=pp.ppq, mpq=pp.mpq)
     if op == "roundtrip":
         return P.PerformedPart.from_note_array(pp.note_array())
     raise ValueError(op)
 
 
+def scribble(na):
+    """write into an array a call returned (the caller owns it); a later call must not show it"""
+    try:
+        for name in ("onset_sec", "duration_sec"):
+            na[name] = na[name] + 7.25
+        for name in ("onset_tick", "duration_tick", "pitch", "velocity"):
+            na[name] = 1 - na[name]
+    except (ValueError, TypeError, KeyError, IndexError):
+        pass  # a read-only result cannot be spoilt
+
+
 def observe(pp):
+    scribble(pp.note_array())
     na = pp.note_array()
     return dict(on=[F(float(n["note_on"])) for n in pp.notes], off=[F(float(n["note_off"])) for n in pp.notes],
                 pitch=[int(n["midi_pitch"]) for n in pp.notes], so=[F(float(n["sound_off"])) for n in pp.notes],
@@ -1457,6 +1673,197 @@ def run_perf(case):
         return "%s: %s" % (type(e).__name__, e)
 
 
+def build_perf_part(part, sc):
+    """the PerformedPart of one abstract part of a performance case (track None = key absent)"""
+    import partitura.performance as P
+
+    sc = float(sc)
+    notes = []
+    for k, x in enumerate(part["notes"]):
+        d = dict(id="n%d" % k, midi_pitch=x["midi_pitch"], note_on=x["on"] / sc, note_off=x["off"] / sc, velocity=x["velocity"], channel=x["channel"])
+        if x["track"] is not None:
+            d["track"] = x["track"]
+        notes.append(d)
+    ctrls = []
+    for c in part["ctrls"]:
+        d = dict(number=c["number"], time=c["t"] / sc, value=c["value"], channel=c["channel"])
+        if c["track"] is not None:
+            d["track"] = c["track"]
+        ctrls.append(d)
+    progs = []
+    for g in part["progs"]:
+        d = dict(program=g["program"], time=g["t"] / sc, channel=g["channel"])
+        if g["track"] is not None:
+            d["track"] = g["track"]
+        progs.append(d)
+    return P.PerformedPart(notes, controls=ctrls, programs=progs)
+
+
+def track_snapshot(parts):
+    """the track key of every note, control and program change of every part as it is now (None = key absent)"""
+    rd = lambda e: None if e.get("track") is None else int(e.get("track"))
+    return [([rd(n) for n in pp.notes], [rd(c) for c in pp.controls], [rd(g) for g in pp.programs]) for pp in parts]
+
+
+def track_pairs(olds, news):
+    """((part, old track), new track) over all events that have a number afterwards"""
+    pairs = []
+    for i, (o, n) in enumerate(zip(olds, news)):
+        for side_o, side_n in zip(o, n):
+            pairs += [((i, a), b) for a, b in zip(side_o, side_n) if b is not None]
+    return pairs
+
+
+def perf_rows(perf):
+    na0 = perf.note_array()
+    scribble(na0)
+    na = perf.note_array()
+    rows = sorted((int(r["pitch"]), int(r["velocity"]), F(float(r["onset_sec"])), F(float(r["duration_sec"])), int(r["onset_tick"])) for r in na)
+    held = sorted((int(n["midi_pitch"]), int(n["velocity"]), F(float(n["note_on"])), F(float(n["sound_off"])) - F(float(n["note_on"])), F(float(n["note_off"])))
+                  for pp in perf.performedparts for n in pp.notes)
+    return dict(rows=rows, held=held)
+
+
+def gen_perf_hist_case(rng):
+    """A performance, then edits through the public API (a part replaced by perf[i] = part, a part appended to /
+    deleted from perf.performedparts, a note added on a track number in use, an event's track changed in place, a
+    part's pedal threshold assigned), then sanitize_track_numbers() again: everything observed afterwards is
+    judged against the parts as they are NOW."""
+    base = gen_perf_case(rng)
+    base["again"] = None
+    nparts = len(base["parts"])
+    edits = []
+    for _ in range(rng.choice([1, 1, 2, 3])):
+        r = rng.random()
+        if r < 0.25:
+            edits.append(dict(op="replace", idx=rng.randrange(nparts), part=rng.choice(gen_perf_case(rng)["parts"])))
+        elif r < 0.45:
+            edits.append(dict(op="append", part=rng.choice(gen_perf_case(rng)["parts"])))
+            nparts += 1
+        elif r < 0.6:
+            edits.append(dict(op="add_note", idx=rng.randrange(nparts), track=rng.choice([0, 1, 2, 3, rng.randint(0, 9)]),
+                              note=dict(midi_pitch=rng.randint(20, 100), on=rng.randint(0, 30), d=rng.randint(0, 6), velocity=rng.randint(1, 127), channel=rng.randint(0, 15))))
+        elif r < 0.8:
+            edits.append(dict(op="set_track", idx=rng.randrange(nparts), which=rng.choice(["note", "note", "ctrl", "prog"]), k=rng.randint(0, 9),
+                              track=rng.choice([0, 1, 2, 3, rng.randint(0, 9)])))
+        elif r < 0.92:
+            edits.append(dict(op="thr", idx=rng.randrange(nparts), thr=rng.choice([0, 127, 64, rng.randint(0, 127)])))
+        elif nparts > 1:
+            edits.append(dict(op="del_part", idx=rng.randrange(nparts)))
+            nparts -= 1
+    base["edits"] = edits
+    return base
+
+
+def run_perf_hist(case):
+    """-> dict of observations, or an error string"""
+    import copy
+    import partitura.performance as P
+
+    sc = case["scale"]
+    try:
+        pps = [build_perf_part(part, sc) for part in case["parts"]]
+        olds1 = track_snapshot(pps)
+        perf = P.Performance(tuple(pps) if case.get("container") == "tuple" else pps)
+        out = dict(olds1=olds1, news1=track_snapshot(perf.performedparts), nt1=perf.num_tracks, na1=perf_rows(perf))
+        for e in case["edits"]:
+            n = len(perf.performedparts)
+            op = e["op"]
+            if op == "replace":
+                perf[e["idx"] % n] = build_perf_part(e["part"], sc)
+            elif op == "append":
+                perf.performedparts.append(build_perf_part(e["part"], sc))
+            elif op == "del_part":
+                if n > 1:
+                    del perf.performedparts[e["idx"] % n]
+            elif op == "add_note":
+                x = e["note"]
+                pp = perf[e["idx"] % n]
+                pp.notes.append(P.PerformedNote(dict(id="x%d" % len(pp.notes), midi_pitch=x["midi_pitch"], note_on=x["on"] / float(sc), note_off=(x["on"] + x["d"]) / float(sc),
+                                                     velocity=x["velocity"], channel=x["channel"], track=e["track"])))
+                pp.sustain_pedal_threshold = pp.sustain_pedal_threshold
+            elif op == "set_track":
+                pp = perf[e["idx"] % n]
+                evs = dict(note=pp.notes, ctrl=pp.controls, prog=pp.programs)[e["which"]]
+                if evs:
+                    evs[e["k"] % len(evs)]["track"] = e["track"]
+            elif op == "thr":
+                perf[e["idx"] % n].sustain_pedal_threshold = e["thr"]
+        out["olds2"] = track_snapshot(perf.performedparts)
+        out["nt2"] = perf.num_tracks
+        out["na2"] = perf_rows(perf)
+        fresh = P.Performance(copy.deepcopy(list(perf.performedparts)), ensure_unique_tracks=False)
+        out["nt2_fresh"] = fresh.num_tracks
+        perf.sanitize_track_numbers()
+        out["news3"] = track_snapshot(perf.performedparts)
+        out["nt3"] = perf.num_tracks
+        out["na3"] = perf_rows(perf)
+        fresh = P.Performance(copy.deepcopy(list(perf.performedparts)), ensure_unique_tracks=False)
+        out["nt3_fresh"] = fresh.num_tracks
+        return out
+    except Exception as e:
+        return "%s: %s" % (type(e).__name__, e)
+
+
+def perf_hist_term(case, out):
+    """The history as the model sees it (Model/C14_State.v): the track keys observed after construction, the
+    edits as pstep values (indices resolved as run_perf_hist resolves them), the tracks observed after the
+    final renumbering.  None: an event without track key is involved (outside the statement)."""
+    opt = lambda l: clist([copt(None if o is None else int(o), cz) for o in l])
+    pt = lambda n, c, g: ctuple([opt(n), opt(c), opt(g)])
+
+    def abstract(part):
+        return ([0 if x["track"] is None else x["track"] for x in part["notes"]], [c["track"] for c in part["ctrls"]], [g["track"] for g in part["progs"]])
+
+    state = [tuple(list(side) for side in part) for part in out["news1"]]
+    if any(v is None for part in state for side in part for v in side):
+        return None
+    steps = []
+    for e in case["edits"]:
+        n = len(state)
+        op = e["op"]
+        if op == "replace":
+            a = abstract(e["part"])
+            state[e["idx"] % n] = a
+            steps.append("(PReplace %d%%nat %s)" % (e["idx"] % n, pt(*a)))
+        elif op == "append":
+            a = abstract(e["part"])
+            state.append(a)
+            steps.append("(PAppend %s)" % pt(*a))
+        elif op == "del_part":
+            if n > 1:
+                del state[e["idx"] % n]
+                steps.append("(PDelete %d%%nat)" % (e["idx"] % n))
+        elif op == "add_note":
+            state[e["idx"] % n][0].append(e["track"])
+            steps.append("(PAddNote %d%%nat (Some %s))" % (e["idx"] % n, cz(e["track"])))
+        elif op == "set_track":
+            k = dict(note=0, ctrl=1, prog=2)[e["which"]]
+            evs = state[e["idx"] % n][k]
+            if evs:
+                evs[e["k"] % len(evs)] = e["track"]
+                steps.append("(PSetTrack %d%%nat %s %d%%nat %s)" % (e["idx"] % n, ["KNote", "KCtrl", "KProg"][k], e["k"] % len(evs), cz(e["track"])))
+    if any(v is None for part in state for side in part for v in side) or any(v is None for part in out["news3"] for side in part for v in side):
+        return None
+    if [tuple(list(side) for side in part) for part in out["olds2"]] != [tuple(list(side) for side in part) for part in state]:
+        return "bookkeeping"  # the harness's own account of the edits differs from what the parts hold
+    return ctuple([clist([pt(*part) for part in out["news1"]]), clist(steps),
+                   clist([ctuple([clist([cz(v) for v in n_]), clist([cz(v) for v in c_]), clist([cz(v) for v in g_])]) for n_, c_, g_ in out["news3"]])])
+
+
+def oracle_perf_hist(out):
+    bad = []
+    bad += ["after construction: " + b for b in oracle_tracks(track_pairs(out["olds1"], out["news1"])) + oracle_perf_note_array(out["na1"])]
+    bad += ["after the edits: " + b for b in oracle_perf_note_array(out["na2"])]
+    if out["nt2"] != out["nt2_fresh"]:
+        bad.append("after the edits: num_tracks is %d, a performance built afresh from the same parts has %d (state carried between calls)" % (out["nt2"], out["nt2_fresh"]))
+    bad += ["after the edits and sanitize_track_numbers(): " + b for b in oracle_tracks(track_pairs(out["olds2"], out["news3"])) + oracle_perf_note_array(out["na3"])]
+    if out["nt3"] != out["nt3_fresh"]:
+        bad.append("after the edits and sanitize_track_numbers(): num_tracks is %d, a performance built afresh from the same parts has %d (state carried between calls)"
+                   % (out["nt3"], out["nt3_fresh"]))
+    return bad
+
+
 def oracle_perf_note_array(det):
     """Performance.note_array(): every note of every part is reported once with its pitch, velocity,
     onset and the duration up to its sounding end; the onset tick agrees with the onset in seconds
@@ -1561,6 +1968,7 @@ CASE_TYPES = {
     "check_pnote": "ndict * list edit * option pnote * list (option pnote)",
     "check_sanitize": "nat * list ptracks * list (list Z * list Z * list Z)",
     "check_sanitize_exact": "nat * list ptracks * list (list Z * list Z * list Z)",
+    "check_perf_history": "list ptracks * list pstep * list (list Z * list Z * list Z)",
 }
 
 
@@ -1624,7 +2032,7 @@ def run(ctx):
                 "same/different channels, zero-length notes, sorted/unsorted/reversed order; 0-20 controls, 70% sustain (64) with values "
                 "weighted to 0/127/63/64/65/thr-1/thr/thr+1, times before the first note, after the last release, exactly on onsets/releases "
                 "and one step off them; initial threshold from {0,1,63,64,126,127} or random; 1-6 later assignments; ppq/mpq from 6 pairs or random). "
-                "Operation histories = such a part, 35% of them built from notes that already carry a sound_off >= release (half of those without any "
+                "Operation histories (600 / 15000) = such a part, 35% of them built from notes that already carry a sound_off >= release (half of those without any "
                 "pedal event), followed by 1-6 steps: threshold assignment 12%, controls replaced / extended (pedal added later) / one deleted / cleared / "
                 "all pedal events removed (by assignment and in place) then threshold assigned 40%, note_off or note_on edited / note added / deleted then "
                 "threshold assigned 20%, part rebuilt from the part's note dicts / note objects / copies with same, pedal-free or new controls 18%, "
@@ -1636,9 +2044,15 @@ def run(ctx):
                 "45% of the main and history cases hand the notes over in a 'shape': times as float / int / numpy float32 / float64, optional note keys absent, PerformedNote "
                 "objects, stored ticks (note_on_tick / note_off_tick by the library's own conversion), carried sound_off, controls without track / channel, controls=None; "
                 "pitch 0 / 127 in 25% of the cases, velocity 0 / 127 / 1 / 126 in 12% of the notes, onset 0 in 10%. Histories also: ppq / mpq assigned (6% of the steps), "
-                "note_array() judged after construction and after every step under the current ppq / mpq; 150 / 3000 histories start from a part loaded by load_performance_midi "
+                "note_array() judged after construction and after every step under the current ppq / mpq; 120 / 2400 histories start from a part loaded by load_performance_midi "
                 "from an in-memory type-1 file (ppq 512, 1-3 tempi in the first track, notes and controls in the second, 30% merge_tracks=True). "
-                "PerformedNote stream: 1200 / 30000 dicts (35% with one field outside the statement) each followed by 0-4 assignments note[key] = value. A part without notes: 3 checks. "
+                "PerformedNote stream: 1000 / 24000 dicts (35% with one field outside the statement) each followed by 0-4 assignments note[key] = value. A part without notes: 3 checks. "
+                "Second hardening round: 22% of the main / history cases have one or two of the time columns (onsets / releases / control times) on whole seconds only while the "
+                "others are not, each column handed over in a number type of its own (int / np.int64 / np.int32 where whole, float / np.float32 / np.float64), thresholds also as numpy ints; "
+                "history steps: one control event edited in place (value / time / number), adjust_offsets_w_sustain called directly, edited values in those number types; every note_array() "
+                "observation is the second of two calls with the first result overwritten; every third main case the previous one is run again, every fifth is followed by a variant with one "
+                "pedal value across the threshold; from_note_array also on the array in 4 other accepted forms; 150 / 3000 Performance histories (part replaced / appended / deleted, note added, "
+                "track changed in place, threshold assigned, then sanitize_track_numbers() again; num_tracks and note_array() judged against the current parts). "
                 "Non-trivial = a case in which at least one note's sounding end differs from its release under at least one of the thresholds "
                 "(pedal extension, possibly clipped by a re-strike), a history with such a state or with a carried sound_off different from the release, "
                 "a performance with more than one (part, track) pair; counted distinct by the full case.")
@@ -1681,9 +2095,9 @@ def run(ctx):
 
     rng = ctx.rng
     quick = ctx.tier == "quick"
-    n_main = 1000 if quick else 24000
-    n_tie = 150 if quick else 3000
-    n_perf = 300 if quick else 6000
+    n_main = 800 if quick else 18000
+    n_tie = 120 if quick else 2400
+    n_perf = 250 if quick else 5000
 
     # ---- corpus + generated main stream
     cases = []
@@ -1696,6 +2110,15 @@ def run(ctx):
             cases.append((c, "tie"))
         else:
             cases.append((c, "main"))
+        peds = [k for k, x in enumerate(c["ctrls"]) if x["number"] == 64]
+        if i % 5 == 0 and peds:
+            # the same part once more with ONE pedal value moved across the threshold (same times, same lengths, same
+            # threshold: whatever the library may remember about the previous call does not apply to this one)
+            c2 = json.loads(json.dumps(c))
+            x = c2["ctrls"][rng.choice(peds)]
+            x["value"] = rng.choice([0, c["thr"]]) if x["value"] > c["thr"] else rng.choice([127, min(127, c["thr"] + 1)])
+            ctx.count("main:variant_with_one_pedal_value_across_the_threshold")
+            cases.append((c2, "tie" if has_order_tie(c2) else "main"))
     for i in range(n_tie):
         cases.append((gen_case(rng, tie_stream=True), "tie?"))
 
@@ -1703,10 +2126,25 @@ def run(ctx):
     pp_terms, pp_cases = [], []
     n_viol = 0
     tie_terms, tie_cases = [], []
-    for case, kind in cases:
+    prev = None
+    for k_case, (case, kind) in enumerate(cases):
         bad, res, tie = judge(case)
         ctx.evaluations += 1 + len(case["thrs"])
         ctx.count("cases:" + ("tie" if tie else "main"))
+        if not bad and prev is not None and k_case % 3 == 0:
+            # same process, two inputs, both orders: the previous case once more, after this one went through the library
+            again, tmo = guarded(run_impl, prev[0])
+            ctx.evaluations += 1
+            ctx.count("cases:run_again_after_another_case")
+            if tmo or any(again.get(key) != prev[1].get(key) for key in ("obs0", "hist", "na", "rebuilt", "err")):
+                if n_viol < 5:
+                    ctx.violation("C14 fails on the implementation: the same notes, controls and thresholds give another result after another part went through the library: "
+                                  "sounding ends %s then, %s now (state carried between calls)"
+                                  % ([float(x) for x in prev[1]["obs0"]], None if tmo or again["obs0"] is None else [float(x) for x in again["obs0"]]),
+                                  {"kind": "pedal-pair", "first": prev[0], "between": case})
+                n_viol += 1
+        if not bad:
+            prev = (case, res)
         if bad:
             if n_viol < 5:
                 def still(d):
@@ -1739,8 +2177,28 @@ def run(ctx):
             for t in {case["thr"]} | set(case["thrs"]):
                 for why_ in end_reasons(case, t):
                     ctx.count("end_decided_by:" + why_)
+        if res.get("rebuilt2") is not None:
+            ctx.count("cases:from_note_array_of_an_array_in_another_accepted_form(variant %d)" % res["variant"])
+        if res.get("direct") is not None:
+            ctx.count("cases:adjust_offsets_w_sustain_called_directly_on_dicts")
+        elif res.get("direct_err"):
+            ctx.count("cases:adjust_offsets_w_sustain_on_dicts_raised(not judged)")
         shp = case.get("shape")
+        if case.get("whole"):
+            w = case["whole"]
+            ctx.count("whole_seconds_only:" + "+".join(w))
+            ends = [spec_end(case, t, i) for t in {case["thr"]} | set(case["thrs"]) for i in range(len(case["notes"]))] if not tie else []
+            for col in w:
+                kd = kind_of(shp, col)
+                if kd in ("int", "npint", "npint32"):
+                    ctx.count("whole_seconds_only:%s_handed_over_as_%s" % (col, kd))
+                    if col == "off" and any(st_ and e.denominator != 1 for e, st_ in ends):
+                        ctx.count("whole_seconds_only:integer_releases_and_a_sounding_end_off_the_whole_seconds")
         if shp:
+            if shp.get("kinds"):
+                ctx.count("shape:time_columns_in_different_number_types")
+            if shp.get("thr_np"):
+                ctx.count("shape:threshold_as_numpy_int")
             ctx.count("shape:times_as_%s" % shp["num"])
             if shp.get("obj"):
                 ctx.count("shape:PerformedNote_objects_handed_over")
@@ -1784,8 +2242,9 @@ def run(ctx):
             ctx.violation("model and implementation disagree on note_array()", {"kind": "note-array-model", "case": case,
                                                                                  "impl_rows": [{k: (float(v) if isinstance(v, F) else v) for k, v in r.items()} for r in res["na"]]})
         # agreement with the model's own tick formulas (round half even; tick(release) - tick(onset)) is counted, not required
-        xfail = coq_failing(ctx, "na_exact", imports, na_terms, "check_note_array_exact", shard=250)
-        ctx.count("note_array:rows_equal_model_formulas", len(na_terms) - len(xfail))
+        xa_terms = na_terms[::2] if quick else na_terms[::3]  # counted only: a part of the cases
+        xfail = coq_failing(ctx, "na_exact", imports, xa_terms, "check_note_array_exact", shard=250)
+        ctx.count("note_array:rows_equal_model_formulas", len(xa_terms) - len(xfail))
         ctx.count("note_array:rows_differ_from_model_formulas(reported only)", len(xfail))
         # tie stream: agreement with the stable-order model is counted, not required
         tfail = coq_failing(ctx, "tie", imports, tie_terms, "check_history", shard=250) if tie_terms else []
@@ -1802,11 +2261,12 @@ def run(ctx):
             ctx.violation("model and implementation disagree on a part built from note dicts (Model.C14_Note.pp_new; the theorems of Props/C14.v no longer describe this code)",
                           {"kind": "pedal-model", "case": case, "impl_sound_off": [float(x) for x in res["obs0"]],
                            "impl_history": [[float(x) for x in h] for h in res["hist"]]})
-        xfail = coq_failing(ctx, "pp_new_exact", imports_n, pp_terms, "check_pp_new_exact", shard=250)
-        ctx.count("pp_new:rows_equal_model_formulas(default velocity 60, stored tick wins; counted only)", len(pp_terms) - len(xfail))
+        xp_terms = pp_terms[::2] if quick else pp_terms[::3]
+        xfail = coq_failing(ctx, "pp_new_exact", imports_n, xp_terms, "check_pp_new_exact", shard=250)
+        ctx.count("pp_new:rows_equal_model_formulas(default velocity 60, stored tick wins; counted only)", len(xp_terms) - len(xfail))
 
     # ---- PerformedNote: field validation at construction and on assignment
-    n_pn = 1200 if quick else 30000
+    n_pn = 1000 if quick else 24000
     pn_terms, pn_valid = [], []
     for i in range(n_pn):
         pc = gen_pnote_case(rng)
@@ -1841,12 +2301,12 @@ def run(ctx):
 
     # ---- operation histories
     ctx.log("main stream compared in Coq")
-    n_hist = 700 if quick else 15000
-    n_hist_tie = 100 if quick else 2000
+    n_hist = 600 if quick else 15000
+    n_hist_tie = 80 if quick else 1600
     hcases = [(c, "corpus") for c in hist_corpus_cases()]
     hcases += [(gen_hist_case(rng), "hist") for _ in range(n_hist)]
     hcases += [(gen_hist_case(rng, tie_stream=True), "tie?") for _ in range(n_hist_tie)]
-    hcases += [(gen_midi_hist_case(rng), "midi") for _ in range(150 if quick else 3000)]
+    hcases += [(gen_midi_hist_case(rng), "midi") for _ in range(120 if quick else 2400)]
     sna_terms = []
     st_terms, st_cases, stt_terms = [], [], []
     n_hviol = 0
@@ -1874,6 +2334,14 @@ def run(ctx):
             n_hist_steps += len(steps)
         for s_ in steps:
             ctx.count("hist_step:%s%s" % (s_["op"], ":" + s_["how"] if "how" in s_ else ""))
+            if s_.get("num"):
+                ctx.count("hist_step:values_handed_over_as_%s" % s_["num"])
+            if s_.get("direct"):
+                ctx.count("hist_step:adjust_offsets_w_sustain_called_directly")
+            if s_.get("thr_np"):
+                ctx.count("hist_step:threshold_as_numpy_int")
+        if case.get("whole"):
+            ctx.count("histories:whole_seconds_only:" + "+".join(case["whole"]))
         ext = [any(so != off for so, off in zip(o["so"], o["off"])) for _, o in trace]
         noped = [not any(c["number"] == 64 for c in st["ctrls"]) for st, _ in trace]
         carried = any(x.get("so", x["off"]) != x["off"] for x in case["notes"])
@@ -1986,6 +2454,61 @@ def run(ctx):
         else:
             sn_terms.append(term_sanitize(pc, det))
             sn_cases.append((pc, pairs))
+    # ---- histories over a Performance: edits through the public API, then renumbered again
+    snh_terms, snh_cases = [], []
+    ph_terms, ph_cases = [], []
+    for i in range(150 if quick else 3000):
+        pc = gen_perf_hist_case(rng)
+        r, tmo = guarded(run_perf_hist, pc)
+        ctx.evaluations += 3
+        if tmo or isinstance(r, str):
+            if n_viol < 8:
+                ctx.violation("a Performance edited through its public attributes and sanitised again " + (tmo or "raised: " + r), {"kind": "tracks-history", "case": pc})
+            n_viol += 1
+            continue
+        bad = oracle_perf_hist(r)
+        if bad:
+            if n_viol < 8:
+                ctx.violation("track renumbering / Performance.note_array() over a history of edits: " + "; ".join(bad[:3]), {"kind": "tracks-history", "case": pc, "failures": bad[:5]})
+            n_viol += 1
+            continue
+        ctx.nontrivial("perfhist" + json.dumps(pc, sort_keys=True))
+        for e in pc["edits"]:
+            ctx.count("perf_history:edit_%s" % e["op"])
+        numbers = {}
+        for (i_, a), b in track_pairs(r["olds2"], r["olds2"]):
+            numbers.setdefault(b, set()).add(i_)
+        if any(len(v) > 1 for v in numbers.values()):
+            ctx.count("perf_history:a_track_number_shared_by_two_parts_before_the_second_renumbering")
+        if r["na1"]["held"] != r["na2"]["held"]:
+            ctx.count("perf_history:notes_or_sounding_ends_changed_between_two_note_array_calls")
+        keyless = any(o is None for part in r["olds2"] for side in part for o in side)
+        unnumbered = any(v is None for part in r["news3"] for side in part for v in side)
+        t = perf_hist_term(pc, r)
+        if t == "bookkeeping":
+            ctx.violation("after edits through the public API the parts of the Performance do not hold the track keys the edits lead to: %s" % (r["olds2"],),
+                          {"kind": "tracks-history", "case": pc})
+            n_viol += 1
+            continue
+        if t is not None:
+            ph_terms.append(t)
+            ph_cases.append(pc)
+        if not keyless and not unnumbered:
+            side = lambda l: clist([copt(int(o), cz) for o in l])
+            snh_terms.append(ctuple(["1%nat", clist([ctuple([side(n_), side(c_), side(g_)]) for n_, c_, g_ in r["olds2"]]),
+                                     clist([ctuple([clist([cz(v) for v in n_]), clist([cz(v) for v in c_]), clist([cz(v) for v in g_])]) for n_, c_, g_ in r["news3"]])]))
+            snh_cases.append(pc)
+    if ok:
+        imports_t = "From PV Require Import Lib.Base Model.C14 Model.C14_Note Model.C14_Trk."
+        pass  # the renumbering of the state after the edits is checked through check_perf_history below (its bookkeeping is compared with the observed track keys in Python)
+    if ok:
+        imports_s = "From PV Require Import Lib.Base Model.C14 Model.C14_Note Model.C14_Trk Model.C14_State."
+        failing = coq_failing(ctx, "perf_hist", imports_s, ph_terms, "check_perf_history", shard=400)
+        ctx.obligation("correspondence: Model.C14_State.prun (the state machine of the theorems perf_history_*: PReplace / PAppend / PDelete / PAddNote / PSetTrack from the "
+                       "track keys observed after construction, then sanitize) = shape and partition of the tracks after the same edits and sanitize_track_numbers() on the "
+                       "real Performance, %d histories" % len(ph_terms), not failing, failing[:5])
+        for i in failing[:3]:
+            ctx.violation("model and implementation disagree on track renumbering after a history of edits (Model.C14_State.prun)", {"kind": "tracks-history", "case": ph_cases[i]})
     if ok:
         failing = coq_failing(ctx, "tracks", imports, tr_terms, "check_tracks", shard=400)
         ctx.obligation("correspondence: Model.C14.track_map induces the same partition of the (part, track) pairs of notes, controls and programs as "
@@ -1999,8 +2522,9 @@ def run(ctx):
                        "Performance.sanitize_track_numbers, %d performances" % len(sn_terms), not failing, failing[:5])
         for i in failing[:3]:
             ctx.violation("model and implementation disagree on track renumbering (Model.C14_Trk.sanitize)", {"kind": "tracks-model", "case": sn_cases[i][0], "pairs": sn_cases[i][1]})
-        xfail = coq_failing(ctx, "sanitize_exact", imports_t, sn_terms, "check_sanitize_exact", shard=400)
-        ctx.count("perf:new_numbers_equal_model_numbers(sorted order; counted only)", len(sn_terms) - len(xfail))
+        xs_terms = sn_terms[::2]
+        xfail = coq_failing(ctx, "sanitize_exact", imports_t, xs_terms, "check_sanitize_exact", shard=400)
+        ctx.count("perf:new_numbers_equal_model_numbers(sorted order; counted only)", len(xs_terms) - len(xfail))
         # events without a track key: the model reads -1 as the code does; with which track such an event is grouped is not
         # part of the statement, so a disagreement is recorded as an obligation (model drift), not as a violation
         kfail = coq_failing(ctx, "sanitize_keyless", imports_t, snk_terms, "check_sanitize", shard=400) if snk_terms else []
@@ -2049,6 +2573,13 @@ def replay(obj):
         for t in [case["thr"]] + case["thrs"]:
             print("  threshold %d:" % t, [float(spec_sound_off(case, t, i)) for i in range(len(case["notes"]))])
         print("oracle:", bad or "holds")
+    elif kind == "pedal-pair":
+        a = run_impl(r["first"])
+        run_impl(r["between"])
+        b = run_impl(r["first"])
+        print("implementation, first case: sound_off after construction:", [float(x) for x in a["obs0"]], "after the thresholds", [[float(x) for x in h] for h in a["hist"]])
+        print("the same case after the other one went through the library:", [float(x) for x in b["obs0"]], [[float(x) for x in h] for h in b["hist"]])
+        print("oracle:", "holds" if all(a.get(k) == b.get(k) for k in ("obs0", "hist", "na", "rebuilt", "err")) else "the results differ")
     elif kind in ("history", "history-model"):
         case = r["case"]
         sc = case["scale"]
@@ -2071,6 +2602,15 @@ def replay(obj):
             print("implementation: ((part, old track), new track):", pairs, "num_tracks", nt)
             print("Performance.note_array() rows (pitch, velocity, onset, duration, onset_tick):", [(a, b, float(c), float(d), e) for a, b, c, d, e in det["rows"]])
             print("oracle:", (oracle_tracks(pairs) + oracle_perf_note_array(det)) or "holds")
+    elif kind == "tracks-history":
+        rr = run_perf_hist(r["case"])
+        if isinstance(rr, str):
+            print("implementation raised:", rr)
+        else:
+            print("implementation: track keys before / after construction:", rr["olds1"], rr["news1"], "num_tracks", rr["nt1"])
+            print("  after the edits:", rr["olds2"], "num_tracks", rr["nt2"], "(a performance built afresh from these parts:", rr["nt2_fresh"], ")")
+            print("  after sanitize_track_numbers():", rr["news3"], "num_tracks", rr["nt3"], "(afresh:", rr["nt3_fresh"], ")")
+            print("oracle:", oracle_perf_hist(rr) or "holds")
     elif kind == "pnote":
         f0, outs, errs = run_pnote(r["case"])
         print("implementation: after construction:", f0, "after each assignment:", outs, "errors:", errs)
